@@ -5,6 +5,7 @@
  *
  * stdin protocol:
  *   P <id> <rngseed> <nbytes>\n<janet source of nbytes>      run one program, print one line  "P <id> <verdict> R=<u32,...> <log>"
+ *                                                             preceded by "S <id> <log points with a wrapped items ring> <of these: full> <max ring capacity>"
  *   Q <ops...>\n                                              ring-buffer script on a real JanetQueue (janet_q_*), one output line
  * Program source defines (defn vprog [] ...) using the cfuns  vchan vreg vb ve  registered below.
  */
@@ -98,9 +99,18 @@ static void dump_pending(JanetQueue *q) {
     }
 }
 
+/* ring geometry of the item queues seen at the log points of the current program (reported on the separate "S" line,
+ * which is not part of the compared log: the model keeps the queues as lists) */
+static int geo_wrapped = 0, geo_maxcap = 0, geo_full_wrapped = 0;
+
 static void dump_state(void) {
     for (int c = 0; c < nch; c++) {
         JanetChannel *ch = chs[c];
+        if (ch->items.head > ch->items.tail) {
+            geo_wrapped++;
+            if (janet_q_count(&ch->items) >= ch->limit) geo_full_wrapped++;
+        }
+        if (ch->items.capacity > geo_maxcap) geo_maxcap = ch->items.capacity;
         lput("|c%d i=", c);
         Janet *d = ch->items.data;
         int first = 1;
@@ -189,6 +199,7 @@ static const char *status_name(JanetFiber *f) {
 static void run_program(const char *id, uint32_t seed, const char *src) {
     lgn = 0; lput("");
     nfib = 0; nch = 0; idle_forever = 0; polls = 0; vclock_ms = VCLOCK_START;
+    geo_wrapped = 0; geo_maxcap = 0; geo_full_wrapped = 0;
     memset(fib, 0, sizeof fib); memset(chs, 0, sizeof chs);
     janet_rng_seed(&janet_vm.ev_rng, seed);
     JanetRNG copy = janet_vm.ev_rng;
@@ -229,6 +240,7 @@ static void run_program(const char *id, uint32_t seed, const char *src) {
         if (fib[i] && janet_fiber_status(fib[i]) == JANET_STATUS_ERROR) { lput(":"); canon(fib[i]->last_value); }
     }
     lput("|lc=%d", (int) janet_atomic_load(&janet_vm.listener_count));
+    printf("S %s %d %d %d\n", id, geo_wrapped, geo_full_wrapped, geo_maxcap);
     printf("P %s %s R=%s %s\n", id, verdict, rbuf, lg);
     int dirty = strcmp(verdict, "ok") != 0 || janet_atomic_load(&janet_vm.listener_count) != 0
                 || janet_vm.spawn.head != janet_vm.spawn.tail || janet_vm.tq_count != 0;
